@@ -171,6 +171,8 @@ def shard_main(pid, specfile, outfile):
     level = ambient.install(spec)
     if level is not None:
         ctx.feature('ambient_verbosity_' + level)
+    if ambient.TMP_OTHER_FS[0]:
+        ctx.feature('ambient_tmpdir_on_another_filesystem')
     if spec.get('pyopt'):
         if sys.flags.optimize:
             ctx.feature('ambient_python_O_shards')
